@@ -268,8 +268,8 @@ EXC_EQ = {"TypeError": "AttributeError"}
 
 
 def same_impl_model(I, M, paste=False):
-    """correspondence: exact kinds, token texts and prev_white.  Only for tables that use `##`: prev_white is not compared
-    and string tokens are compared modulo white space (aliasing of argument tokens in MacroFunction.replace, see assumptions)"""
+    """correspondence: exact kinds, token texts and prev_white (`paste=True`, no longer used: prev_white not compared, string
+    tokens modulo white space)"""
     if "defexc" in I or "defexc" in M:
         return ("defexc" in I) and ("defexc" in M) and EXC_EQ.get(I["defexc"], I["defexc"]) == M["defexc"]
     if "exc" in I or "exc" in M:
@@ -348,37 +348,11 @@ def everything(case):
     return " ".join(case.get("defs", []) + case.get("cmd", []) + [case["text"]])
 
 
-def d10_norm(s):
-    """a string literal spelling modulo white space and modulo the quotes of character constants: the
-    recorded deviations of `#` (leading blank kept, blank before the synthesized commas of a variadic argument and before a
-    nested `#` result dropped, character constants spelled without quotes) all live there"""
-    return re.sub(r"\s+", "", s).replace("'", "")
-
-
-def uses_hash(case):
-    return any("#" in b for _n, p, _v, b in all_defs(case) if p is not None)
-
-
-def eq_mod_d10(a, b):
-    """token streams equal except inside string literals, where they differ only by a leading blank / the quotes+escapes
-    of character constants"""
-    if a is None or b is None or len(a) != len(b):
-        return False
-    diff = [(x, y) for x, y in zip(a, b) if x != y]
-    return all(x[0] == "str" and y[0] == "str" and d10_norm(x[1]) == d10_norm(y[1]) for x, y in diff)
-
-
 def eq_mod_string_ws(a, b):
     """equal token streams, string literals compared modulo white space (as the gcc validation of the spec does)"""
     def f(n):
         return [(x[0], re.sub(r"\s+", "", x[1])) if x[0] == "str" else tuple(x) for x in n]
     return a is not None and b is not None and f(a) == f(b)
-
-
-def k_d10(case, obs):
-    """uses `#`; outputs differ only inside string literals, and only by a leading blank / the quotes of character constants"""
-    a, b = obs.get("impl_norm"), obs.get("spec_norm")
-    return uses_hash(case) and a is not None and a != b and eq_mod_d10(a, b)
 
 
 def k_d12(case, obs):
@@ -400,9 +374,11 @@ def k_d42(case, obs):
     return False
 
 
-# case-level predicates first; D10 is decided on the observed difference.  The findings D9, D11, D35, D36, D37, D40, D41, D43, D44 are
-# repaired in the code (known_findings.json: "fixed"); their former witnesses are replayed as ordinary cases (WITNESSES).
-CLASSIFIERS = [("D38", k_d38), ("D42", k_d42), ("D12", k_d12), ("D10", k_d10)]
+# case-level predicates only.  The findings D9, D10, D11, D35, D36, D37, D40, D41, D43, D44 are repaired in the code
+# (known_findings.json: "fixed"); their former witnesses are replayed as ordinary cases (WITNESSES).  D10 (`#` stringification) used to be
+# decided on the observed difference (string literals modulo white space and quotes): that classifier is gone, the text inside a
+# stringified argument is judged character by character like every other token.
+CLASSIFIERS = [("D38", k_d38), ("D42", k_d42), ("D12", k_d12)]
 
 
 def explain(case, obs, known_ids):
@@ -508,7 +484,7 @@ class Gen:
             elif r < 0.62 and inbody and self.params(inbody):
                 args.append(rng.choice(self.params(inbody)))
             elif r < 0.66:
-                args.append(rng.choice([" 'a' ", "\"s\"", " q", "q  r", "'a'", "'x'", "'b'", '"x"', '"a\\n"', '"q\\"r"',
+                args.append(rng.choice([" 'a' ", "\"s\"", " q", "q  r", "'a'", "'x'", "'b'", '"x"', '"a\\n"', '"q\\"r"', "  q ", "'\"'", "'\\\\'", " 1 +  2\t",
                                         '","', '"("', '")"', "','", "'('", "')'", '"," x', "1 '('"]))  # literals spelled like delimiters (finding D44, repaired)
                 self.flags.add("literal_arg")
             elif r < 0.70:
@@ -668,7 +644,7 @@ def _flags_of(defs, text):
 def gen_targeted(rng):
     """shapes that the recorded (now repaired) findings D9, D11, D35, D36, D37, D40, D41 used to mask"""
     shape = rng.choice(["paste_empty", "paste_empty", "tail_call", "tail_call", "unused_variadic", "literal_param", "named_none",
-                        "unevaluated_operand", "arg_like_param"])
+                        "unevaluated_operand", "arg_like_param", "stringify", "stringify", "stringify"])
     defs, text = [], ""
 
     def arglist(k, pool, p_empty):
@@ -755,6 +731,44 @@ def gen_targeted(rng):
         else:
             defs.append("F(None) " + rng.choice(["None + 1", "#None None", "None ## _2", "q None"]))
             text = " ".join(rng.choice(["F(1)", "F(None)", "F()", "None"]) for _ in range(rng.randint(1, 2)))
+    elif shape == "stringify":
+        # `#param` (finding D10, repaired): white space at the ends of / inside the argument, character constants, string literals with
+        # escapes, empty arguments, calls that stay unexpanded inside the operand, `#` results stringified again, variable arguments
+        defs.append(rng.choice(["STR(x) #x", "STR(x) # x", "STR(x)  #x"]))
+        defs.append("XSTR(x) STR(x)")
+        defs.append("N 3")
+        extra = rng.sample(["S2(x, y) #x #y", "S2(x,y) x #y", "S2(x, y) #x y", "W(x) q #x", "W(x) q#x r", "F(x) STR(a #x)", "F(x) STR(a#x)",
+                            "F(x) STR( #x )", "F(x) XSTR(#x + x)", "V(...) #__VA_ARGS__", "V(x, ...) x #__VA_ARGS__", "V(x, args...) #args #x",
+                            "V(...) STR(__VA_ARGS__)", "V(x...) XSTR(x)", "E", "ID(x) x", "M N + 1", "P(x, y) #x ## y", "P(x, y) x ## y #y",
+                            "T(x) #x x STR(x)"], rng.randint(1, 4))
+        seen = set()
+        for d in extra:
+            nm = re.match(r"\w+", d).group(0)
+            if nm not in seen:
+                seen.add(nm)
+                defs.append(d)
+        pool = ["a", "a", "a + b", "a  +   b", "a+b", "'a'", "'a' 'b'", "'\"'", "'\\\\'", "'\\n'", "' '", '"s"', '"x\\n"', '"q\\"r"', '"a b"  \'c\'',
+                '""', "N", "N N", "STR( N )", "XSTR(N)", "STR(STR( 1 ))", "ID( N )", "ID(STR(  q ))", "E", "a E b", "E a", "(a , b)", "( a )",
+                "f(1 , 2)", "M", "- 1", "1.5e+3", "a.b", "x", "y", "#", "q ## r", "F(1)", "V(1 , 2)", "W( N )", "a\tb"]
+
+        def padded(a):
+            return rng.choice(["", "", " ", "  ", "\t"]) + a + rng.choice(["", "", " ", "  "])
+        names_ar = {}
+        for d in defs:
+            pd = parse_def(d)
+            if pd and pd[1] is not None:
+                names_ar[pd[0]] = (len(pd[1]) - (1 if pd[2] else 0), pd[2] is not None)
+        calls = []
+        for _ in range(rng.randint(1, 3)):
+            nm = rng.choice(sorted(names_ar))
+            k, var = names_ar[nm]
+            n = k + (rng.randint(0, 3) if var else 0)
+            if n == 0 and not var and k == 0:
+                calls.append(nm + "()")
+                continue
+            args = [padded(a) for a in arglist(max(n, 1) if (k or not var) else n, pool, 0.15)]
+            calls.append(nm + rng.choice(["", "", " "]) + "(" + rng.choice([",", ", ", " , ", " ,"]).join(args) + ")")
+        text = " ".join(calls)
     else:  # unevaluated_operand: an argument that is only an operand of # / ## is never macro-expanded
         defs.append(rng.choice(["S(x, y) #y", "S(x, y) x #y", "S(x, y) x ## y", "S(x, y) q ## y x", "S(x, y) #x #y"]))
         defs.append(rng.choice(["T(a, b) a b", "T(a, b) a", "T(a) a"]))
@@ -907,7 +921,7 @@ def check_case(ctx, drv, cb, case, gcc=False, I=None, R=None, extra=None, prefix
         if not same and len(ctx.notes) < 10:
             ctx.notes.append(f"PP/ExpandOld.lean (old port) differs from MX.cbiExpand on {small}")
     # --- correspondence (every input, well-formed or not)
-    if not same_impl_model(I, M, paste="##" in everything(case)):
+    if not same_impl_model(I, M):
         ctx.corr_break("c03", small, {k: I[k] for k in I if k != "truth"}, M)
     else:
         ctx.dist["corr_agree"] += 1
@@ -1586,11 +1600,10 @@ RULE = ("inputs = (macro table of <= 6 object-/function-like macros with bodies 
         "equal to the spec). Non-trivial = distinct well-formed (table, text) where at least one macro is replaced.")
 
 ASSUMPTIONS = [
-    "correspondence model/implementation compares token kind, token text and prev_white exactly; only for tables that use `##`, "
-    "prev_white is not compared and string-literal tokens are compared modulo white space: MacroFunction.replace mutates prev_white of a "
-    "shared argument token (`toadd[0].prev_white = ...`) when a multi-token argument is the left operand of `##`; the token object is shared "
-    "with other uses of the argument (and with the enclosing call's raw argument), so blanks in later #-stringifications change; the pure "
-    "model does not reproduce that aliasing (its only observable effect, blanks inside stringified text, is inside the recorded finding D10)",
+    "correspondence model/implementation compares token kind, token text and prev_white exactly, for every table (the former exception for "
+    "tables that use `##` - prev_white not compared, string literals modulo white space, because MacroFunction.replace used to mutate a shared "
+    "argument token - is gone: the code copies the token since the repair of D41, and since the repair of D10 blanks inside stringified text are "
+    "part of the property)",
     "implementation/spec comparison is on (kind class, spelling) per token, operators and punctuators being one class; white space between "
     "tokens is not compared (it has no meaning after translation phase 4)",
     "tokens are restricted to ASCII and to the vocabulary CBI's lexer knows; `##` results such as `++`, `->`, `+=` are treated as outside "
@@ -1640,7 +1653,11 @@ def run_exhaustive(ctx, drv, cb, thorough):
 WITNESSES = [
     {"defs": ["CAT(a,b) a##b"], "text": "CAT(x,)", "flags": ["paste", "empty_arg"], "origin": "repaired:D9"},
     {"defs": ["CAT3(a,b,c) q a##b##c"], "text": "CAT3(,,z)", "flags": ["paste", "empty_arg"], "origin": "repaired:D9"},
-    {"defs": ["STR(x) #x"], "text": "STR( a ) STR('a')", "flags": ["hash"], "origin": "witness:D10"},
+    {"defs": ["STR(x) #x"], "text": "STR( a ) STR('a')", "flags": ["hash"], "origin": "repaired:D10"},
+    {"defs": ["STR(x) #x"], "text": "STR(  a   +  b ) STR() STR(a ) STR('\"') STR('\\\\') STR( '\\n' 'a') STR(\"x\\n\") STR( \"a\\\"b\"  'c' )", "flags": ["hash"], "origin": "repaired:D10(white space, character constants, escapes)"},
+    {"defs": ["STR(x) #x", "XSTR(x) STR(x)", "N 3"], "text": "STR( STR( N ) ) XSTR( N ) XSTR( STR( N ) )", "flags": ["hash"], "origin": "repaired:D10(unexpanded operand)"},
+    {"defs": ["S(x) #x", "F(x) S(a #x)", "G(x) S(a#x)"], "text": "F(1) G(1)", "flags": ["hash"], "origin": "repaired:D10(# result stringified again)"},
+    {"defs": ["V(...) #__VA_ARGS__", "T(x,...) x + #__VA_ARGS__", "N(a, b...) #b b", "C(...) __VA_ARGS__", "q 7"], "text": "V( a , b,c ) V() V( , ) T(1) T(1,2 , q) T(1,) N(1, q ,q) C(q,q) C() [C(,)]", "flags": ["hash", "variadic", "empty_arg"], "origin": "repaired:D10(commas of the variable arguments)"},
     {"defs": ["f(a) a*g", "g(a) f(a)"], "text": "f(2)(9)", "flags": ["recursion"], "origin": "repaired:D11"},
     {"defs": ["None 1"], "text": "None", "flags": [], "origin": "repaired:D35"},
     {"defs": ["V(...) 1"], "text": "V(2)", "flags": ["variadic"], "origin": "repaired:D36"},
@@ -1719,7 +1736,7 @@ def run(ctx, drv, search=False):
                   "call_completed_by_following_tokens", "bare_funlike_name", "cmdline", "defined", "literal_arg", "arg_spelled_like_parameter",
                   "literal_spelled_like_parameter", "macro_named_None", "targeted:paste_empty", "targeted:tail_call", "targeted:unused_variadic",
                   "targeted:literal_param", "targeted:named_none", "targeted:unevaluated_operand", "targeted:arg_like_param",
-                  "targeted:paste_painted", "targeted:vforward")
+                  "targeted:paste_painted", "targeted:vforward", "targeted:stringify")
     }
     ctx.extra["known_finding_fraction_of_well_formed"] = round(ctx.dist["impl!=spec:known"] / max(1, ctx.dist["wf"]), 4)
     ctx.extra["well_formed_fraction"] = round(ctx.dist["wf"] / total, 3)
